@@ -83,9 +83,9 @@ func spellings(r rune) []string {
 var skeletonClassNames = []string{"L", "Lu", "Ll", "Nd", "Z", "Zl", "Zp", "Cs", "Co", "LC", "Greek", "Latin", "Common",
 	"Cyrillic", "Hex_Digit", "Other_Lowercase", "White_Space", "Any", "Ascii", "Bogus", "lu", "any", "ASCII", "N", "x", "_", "L_"}
 
-// escapeAtoms returns (light, bulk, heavy): light atoms go through every context, bulk ones (the
-// \xHH and octal families) and the spellings of the interesting code points) through every context but the \p{Any} one, heavy ones (the large
-// hex families) only stand alone and inside one bracket.
+// escapeAtoms returns (light, bulk, heavy): light atoms go through every context; bulk ones (the
+// \xHH and octal families and the spellings of the interesting code points) through every context
+// but the \p{Any} one; heavy ones (the large hex families) only stand alone and inside one bracket.
 func escapeAtoms(quick bool) (light, bulk, heavy []string) {
 	// --- hexadecimal families
 	for _, w := range words(hexDigits, 2) {
@@ -302,6 +302,51 @@ func skeletons(quick bool, inA1 func(string) bool) []string {
 	}
 	for _, w := range parenWords() {
 		add(w)
+	}
+	for _, w := range escapeSequences() {
+		add(w)
+	}
+	return out
+}
+
+// escapeSequences: parser state carried from one escape to the next. Every kind of escape (and a
+// plain character) as PREVIOUS item x every single-character spelling as NEXT item, the next item
+// being a single member, the low end, the high end or both ends of a range, or the item after a
+// dash; previous and next inside one bracket expression, in two consecutive bracket expressions,
+// or previous outside and next inside brackets (and both outside). A class escape earlier in the
+// pattern must not change what a later \101, \x41, \t, \- ... means, and vice versa.
+func escapeSequences() []string {
+	prev := []string{`\d`, `\w`, `\s`, `\pL`, `\p{Lu}`, `\D`, `\S`, `\P{Lu}`, `\p{Zl}`, `\101`, `\x41`, `\u0041`, `\x{41}`, `\t`, `\-`, `\.`, `a`}
+	// next: spelling of a character, spelling of a character two above it (range partner).
+	next := []struct{ lo, hi string }{
+		{`\101`, `\103`}, {`\060`, `\061`}, {`\x41`, `\x43`}, {`\u0041`, `\u0043`}, {`\U00000041`, `\U00000043`}, {`\x{41}`, `\x{43}`},
+		{`\t`, `\n`}, {`\-`, `\.`}, {`\_`, `\_`}, {`A`, `C`},
+	}
+	var out []string
+	for _, pv := range prev {
+		for _, nx := range next {
+			inside := []string{
+				nx.lo,                     // single member
+				nx.lo + `-z`,              // low end (every lo above is below 'z')
+				"\x01-" + nx.hi,           // high end, raw U+0001 as low end
+				nx.lo + `-` + nx.hi,       // both ends
+				nx.lo + `-` + nx.hi + `b`, // range followed by a member
+				`-` + nx.lo,               // right after a dash
+				nx.lo + nx.hi,             // two members
+			}
+			for _, in := range inside {
+				out = append(out,
+					`[`+pv+in+`]`,                  // same bracket expression, previous first
+					`[`+pv+`][`+in+`]`,             // two bracket expressions
+					pv+`[`+in+`]`,                  // previous outside
+					`[^`+pv+in+`]`,                 // negated
+					`[`+in+pv+`]`,                  // previous last (must not matter either)
+					`[a-z-[`+pv+`]`+`]`+`[`+in+`]`, // previous inside a subtracted class
+					`[`+pv+`-[`+in+`]]`,            // next inside a subtracted class
+				)
+			}
+			out = append(out, pv+nx.lo, pv+nx.lo+`+`, `[`+pv+`]`+nx.lo, pv+nx.lo+pv+nx.hi)
+		}
 	}
 	return out
 }
